@@ -2,6 +2,7 @@ package mcap
 
 import (
 	"fmt"
+	"math"
 )
 
 type ReadOrder int
@@ -25,6 +26,16 @@ type ReadOptions struct {
 
 	StartNanos uint64
 	EndNanos   uint64
+
+	// endSet records that an end bound was requested explicitly. Without one,
+	// the default EndNanos of math.MaxUint64 means "no upper bound" rather than
+	// an exclusive bound that would drop messages logged at math.MaxUint64.
+	endSet bool
+}
+
+// unboundedEnd returns true if no end bound has been requested.
+func (ro *ReadOptions) unboundedEnd() bool {
+	return !ro.endSet && ro.EndNanos == math.MaxUint64
 }
 
 func (ro *ReadOptions) Finalize() {
@@ -84,6 +95,7 @@ func BeforeNanos(end uint64) ReadOpt {
 			return fmt.Errorf("end cannot come before start")
 		}
 		ro.EndNanos = end
+		ro.endSet = true
 		return nil
 	}
 }
